@@ -1,6 +1,6 @@
 //! Module implementing parsing for BIP-0032 HD paths used for key derivation.
 
-use anyhow::{Context as _, Result};
+use anyhow::{ensure, Context as _, Result};
 use std::{
     fmt::{self, Display, Formatter},
     str::FromStr,
@@ -14,8 +14,8 @@ pub struct Path {
 
 impl Path {
     /// Creates the default Ethereum HD path for the specified account index.
-    pub fn for_index(index: usize) -> Self {
-        format!("m/44'/60'/0'/0/{index}").parse().unwrap()
+    pub fn for_index(index: usize) -> Result<Self> {
+        format!("m/44'/60'/0'/0/{index}").parse()
     }
 
     /// Returns an iterator over the path components.
@@ -78,8 +78,12 @@ impl FromStr for Component {
         };
 
         let value = value
-            .parse()
+            .parse::<u32>()
             .with_context(|| format!("invalid BIP-0032 path component '{s}'"))?;
+        ensure!(
+            value < 0x8000_0000,
+            "BIP-0032 path component '{s}' out of range"
+        );
 
         Ok(if hardened {
             Component::Hardened(value)
